@@ -598,6 +598,12 @@ class Checker:
             if rows is None:
                 if res["rc"] == 0:
                     ctx.violation(c, "rows of unequal length but the tool exits 0 (output %r)" % (res["output"] or "")[:200])
+            elif len(rows) < 2 or len(rows[0]) < 2:
+                # the library's documented range check (target_dimension in [1, min(N, D)), here --td 1) rejects
+                # a matrix with fewer than 2 samples or features: non-zero status is right, and so would be the
+                # pass-through output
+                if res["rc"] == 0 and res["output"] != write_text(rows if ti == to else transpose(rows), d):
+                    ctx.violation(c, "wrong output for a degenerate matrix: %r" % (res["output"] or "")[:200])
             else:
                 want = write_text(rows if ti == to else transpose(rows), d)
                 if res["rc"] != 0:
